@@ -185,6 +185,18 @@ def h_solve_concrete():
             ok = ok and np.allclose(T.dot(np.array([1, 1, -2]) / np.sqrt(6)), xi, atol=1e-9) and np.allclose(T.dot(np.array([1, 1, 1]) / np.sqrt(3)), nv, atol=1e-9)
             ok = ok and np.allclose(d.burgers, T.dot(np.array([0.5, -0.5, 0.0]) * 4.05), atol=1e-9) and abs(d.mu - 40.0) < 1e-6 and abs(d.nu - 0.27) < 1e-9
             ob.append((f'solve(xi_uvw, slip_hkl) with m={m}, n={n}: transform is a proper rotation taking the line to xi and the plane normal to n; Burgers vector rotated; mu, nu recovered', bool(ok)))
+        # the wrapper: Stroh where it applies, the isotropic solver (with the SAME arguments) where Stroh refuses
+        for cell in (am.Box.cubic(4.05), am.Box.tetragonal(3.0, 4.7)):
+            kw = dict(ξ_uvw=[1, 1, -2] if cell.iscubic() else [1, 0, 0], slip_hkl=[1, 1, 1] if cell.iscubic() else [0, 0, 1], box=cell, m='y', n='z')
+            bv = [0.5, -0.5, 0.0] if cell.iscubic() else [0.0, 1.0, 0.0]
+            w = am.defect.solve_volterra_dislocation(C, bv, **kw)
+            di = am.defect.IsotropicVolterraDislocation(C, bv, **kw)
+            p = np.array([1.3, 0.7, 0.2])
+            ok = isinstance(w, am.defect.IsotropicVolterraDislocation) and np.allclose(w.burgers, di.burgers, atol=1e-12) and np.allclose(w.transform, di.transform, atol=1e-12) and np.allclose(w.displacement(p), di.displacement(p), atol=1e-12)
+            ob.append((f'solve_volterra_dislocation with isotropic constants in a {"cubic" if cell.iscubic() else "tetragonal"} cell == IsotropicVolterraDislocation with the same arguments (Burgers vector in the cell, transform, displacement)', bool(ok)))
+        wa = am.defect.solve_volterra_dislocation(am.ElasticConstants(C11=169.0, C12=122.0, C44=75.3), [0.5, -0.5, 0.0], ξ_uvw=[1, 1, -2], slip_hkl=[1, 1, 1], box=am.Box.cubic(3.6))
+        da = am.defect.Stroh(am.ElasticConstants(C11=169.0, C12=122.0, C44=75.3), [0.5, -0.5, 0.0], ξ_uvw=[1, 1, -2], slip_hkl=[1, 1, 1], box=am.Box.cubic(3.6))
+        ob.append(('solve_volterra_dislocation with anisotropic constants == Stroh with the same arguments', bool(isinstance(wa, am.defect.Stroh) and np.allclose(wa.burgers, da.burgers) and np.allclose(wa.K_tensor, da.K_tensor))))
         try:
             am.defect.IsotropicVolterraDislocation(am.ElasticConstants(C11=200, C12=100, C44=90), [1, 0, 0]); ob.append(('anisotropic constants refused by the isotropic solver', False))
         except ValueError:
@@ -209,7 +221,7 @@ def h_stroh_samples(seed_, npts):
         mats = {'cubic A=3.2': am.ElasticConstants(C11=169.0, C12=122.0, C44=75.3), 'cubic A=0.7': am.ElasticConstants(C11=250.0, C12=100.0, C44=52.0),
                 'hexagonal': am.ElasticConstants(C11=162.0, C12=92.0, C13=69.0, C33=181.0, C44=47.0), 'orthorhombic': am.ElasticConstants(C11=215.0, C22=199.0, C33=267.0, C12=46.0, C13=55.0, C23=108.0, C44=124.0, C55=66.0, C66=73.0),
                 'near isotropic': am.ElasticConstants(C11=200.2, C12=100.0, C44=50.0)}
-        axes_list = [np.eye(3), np.array([[1, 1, -2], [1, 1, 1], [1, -1, 0]], float)]
+        axes_list = [np.eye(3), np.array([[1, 1, -2], [1, 1, 1], [1, -1, 0]], float), np.array([[-1, 1, 0], [1, 1, 1], [1, 1, -2]], float)]
         ob = []
         for name, C in mats.items():
             bad = []
@@ -224,6 +236,9 @@ def h_stroh_samples(seed_, npts):
                         raise
                     K = d.K_tensor
                     if not (np.isrealobj(K) and np.allclose(K, K.T, atol=1e-8 * abs(K).max()) and np.all(np.linalg.eigvalsh((K + K.T) / 2) > 0)): bad.append('K_tensor')
+                    # the energy-coefficient tensor is the one of THIS field: traction on the slip plane at r m equals K b / (2 pi r)
+                    rr = 1.7; trac = d.stress(rr * d.m).dot(d.n)
+                    if not np.allclose(trac, K.dot(d.burgers) / (2 * np.pi * rr), atol=1e-7 * abs(K).max()): bad.append('K_tensor vs stress')
                     Cr = d.C.Cijkl
                     for _ in range(npts):
                         p = rng.uniform(-5, 5, 3); mv, nv = d.m, d.n
@@ -241,7 +256,7 @@ def h_stroh_samples(seed_, npts):
                     if not np.allclose(d.displacement(pp) - d.displacement(pm), d.burgers, atol=1e-6 * max(1, abs(d.burgers).max())): bad.append('jump')
                     pp = 2.0 * mv + 1e-9 * nv; pm = 2.0 * mv - 1e-9 * nv
                     if not np.allclose(d.displacement(pp) - d.displacement(pm), 0, atol=1e-6): bad.append('continuity')
-            ob.append((f'Stroh samples, {name}: strain = sym grad u, stress = C:strain, div stress = 0, 1/r, Burgers jump, continuity, K real symmetric positive definite', not bad))
+            ob.append((f'Stroh samples, {name}: strain = sym grad u, stress = C:strain, div stress = 0, 1/r, Burgers jump, continuity, K real symmetric positive definite and consistent with the traction on the slip plane (failing: {sorted(set(bad))})', not bad))
         # covariance under a rotation of the whole problem, and the isotropic limit
         C = mats['cubic A=3.2']; b = np.array([0.3, -0.2, 0.5])
         R = np.array([[0, 1, 0], [-1, 0, 0], [0, 0, 1]], float)       # cubic symmetry rotation applied to the crystal axes
